@@ -93,13 +93,18 @@ func sizes(tier string) []int {
 }
 
 func scenarios(tier string) (out []scenario) {
-	for _, kind := range []string{"config", "upgrade", "leases", "filter", "filterfail", "filterlong", "seturl", "seturlfail"} {
+	for _, kind := range []string{"config", "upgrade", "leases", "leasesreset", "filter", "filterfail", "filterlong", "seturl", "seturlfail"} {
 		for _, sz := range sizes(tier) {
 			for _, old := range []bool{true, false} {
 				for _, tmp := range []string{"same", "other"} {
 					if kind == "upgrade" && (!old || sz > 1<<20 || (sz != 0 && sz != 4096 && sz != 1<<20)) {
 						// The upgrade needs an existing file of the previous schema;
 						// three sizes are enough for the one extra write path.
+						continue
+					}
+					if kind == "leasesreset" && sz != 0 && sz != 4096 {
+						// The reset's new version does not depend on the size of
+						// the old one: the writer's minimum and one page.
 						continue
 					}
 					if (kind == "filterfail" || kind == "filterlong" || kind == "seturl" || kind == "seturlfail") && (!old || (sz != 4096 && sz != 1<<20)) {
@@ -224,7 +229,7 @@ func (r *runner) destOf(dir string) string {
 	switch r.sc.Kind {
 	case "config", "upgrade":
 		return filepath.Join(dir, "AdGuardHome.yaml")
-	case "leases":
+	case "leases", "leasesreset":
 		return filepath.Join(dir, "data", "leases.json")
 	}
 	return filepath.Join(dir, "data", "filters", "1.txt")
@@ -419,6 +424,18 @@ func (r *runner) record() (rec *recording, err error) {
 	if bytes.Equal(rec.versions[1], rec.versions[2]) || (rec.hasV0 && !r.sc.failing() && bytes.Equal(rec.versions[0], rec.versions[1])) {
 		return nil, fmt.Errorf("%s: successive versions are equal, the scenario is vacuous", r.sc.id())
 	}
+	// The versions the recording took from the code must be complete versions
+	// in the statement's sense, whatever sequence of calls produced them.
+	if r.sc.Kind == "leases" || r.sc.Kind == "leasesreset" {
+		for j := 0; j < 3; j++ {
+			if j == 0 && !rec.hasV0 {
+				continue
+			}
+			if class, why := r.completeLeaseDB(rec.versions[j], r.leasesHeld(j, rec)); class != "" {
+				return nil, &incompleteErr{j: j, class: class, why: why, n: len(rec.versions[j])}
+			}
+		}
+	}
 	// Paths in the model are those of the recording run.
 	rec.m, err = buildModel(t.rel, t.dir, t.dest, rec.versions, rec.hasV0)
 	if err != nil {
@@ -428,6 +445,67 @@ func (r *runner) record() (rec *recording, err error) {
 		return nil, fmt.Errorf("%s: calls on the working directory the model cannot interpret: %s", r.sc.id(), strings.Join(rec.m.unmodelled, "; "))
 	}
 	return rec, nil
+}
+
+// incompleteErr: what the path holds once save j has returned is not a
+// complete lease database (absolute oracle, independent of the calls made).
+type incompleteErr struct {
+	j     int
+	class string
+	why   string
+	n     int
+}
+
+func (e *incompleteErr) Error() string {
+	return fmt.Sprintf("once save %d has returned the destination holds %d bytes that are not the complete new version of the lease database: %s", e.j, e.n, e.why)
+}
+
+// leasesHeld is the number of leases the server holds when save j is made:
+// the calibrated number for an ordinary lease change, none after a reset.  A
+// failed save 1 leaves version 0, which holds the same number.
+func (r *runner) leasesHeld(j int, rec *recording) int {
+	if r.sc.Kind == "leasesreset" && j == 1 {
+		return 0
+	}
+	n := 0
+	_, _ = fmt.Sscanf(r.calib, "%d:", &n)
+	return n
+}
+
+// completeLeaseDB judges one stored version of the lease database against the
+// statement: a complete version is one whole JSON document of the database
+// format that lists exactly the leases the server held (so never an empty
+// file), and a restart on it succeeds (the real Create: migrateDB + dbLoad).
+func (r *runner) completeLeaseDB(b []byte, want int) (class, why string) {
+	if len(b) == 0 {
+		return "empty", "an empty file"
+	}
+	var doc struct {
+		Version *int              `json:"version"`
+		Leases  []json.RawMessage `json:"leases"`
+	}
+	if err := json.Unmarshal(b, &doc); err != nil {
+		return "not-a-document", "not one whole JSON document: " + err.Error()
+	}
+	if doc.Version == nil {
+		return "not-a-document", "a JSON document without the version of the database format"
+	}
+	if len(doc.Leases) != want {
+		return "wrong-leases", fmt.Sprintf("the document lists %d leases, the server held %d", len(doc.Leases), want)
+	}
+	dir, err := r.newDir()
+	if err != nil {
+		return "", ""
+	}
+	defer os.RemoveAll(dir)
+	if err = os.WriteFile(filepath.Join(dir, "leases.json"), b, 0o644); err != nil {
+		return "", ""
+	}
+	r.c.Count("restarts_on_stored_version", 1)
+	if _, err = dhcpd.VerifC14New(dir); err != nil {
+		return "restart-fails", "the DHCP server cannot be started on it: " + err.Error()
+	}
+	return "", ""
 }
 
 // windowCalls renders the calls of the window for a violation report.
@@ -557,6 +635,14 @@ func run(c *lib.Ctx) {
 			}
 			continue
 		}
+		var ie *incompleteErr
+		if errors.As(err, &ie) {
+			if owner {
+				cs := caseC{Scenario: sc, Mode: "final", Observed: ie.class, Allowed: "the complete new version"}
+				c.Violation("incomplete-version:"+sc.Kind+":"+ie.class, ie.Error()+"\nscenario: "+sc.id(), cs)
+			}
+			continue
+		}
 		if err != nil {
 			c.EngineError(err.Error())
 			return
@@ -586,6 +672,8 @@ func run(c *lib.Ctx) {
 					}
 					c.Violation("failed-save-changed-file:"+sc.Kind, describe(sc, rec, fmt.Sprintf("%s changed the stored file: %d bytes before, %d bytes after", what, len(rec.versions[0]), len(rec.versions[1]))), cs)
 				}
+			} else if sc.Kind == "leasesreset" {
+				// The new version of save 1 holds no leases whatever the size.
 			} else if sc.Kind == "upgrade" {
 				// The upgraded file gains the keys the migration adds, and the
 				// later ordinary write keeps them: sizes are not calibrated.
@@ -776,6 +864,10 @@ func replay(c *lib.Ctx, raw json.RawMessage) string {
 	if errors.Is(err, errAbsentAfterSave) {
 		return err.Error() + "\nscenario: " + cs.Scenario.id()
 	}
+	var ie *incompleteErr
+	if errors.As(err, &ie) {
+		return ie.Error() + "\nscenario: " + cs.Scenario.id()
+	}
 	if err != nil {
 		return "engine: " + err.Error()
 	}
@@ -836,13 +928,14 @@ func main() {
 				"scenarios":                      m.Counters["scenarios"],
 				"failing_save_scenarios":         m.Counters["failing_save_scenarios"],
 				"concurrent_save_runs":           m.Counters["concurrent_save_runs"],
+				"restarts_on_stored_version":     m.Counters["restarts_on_stored_version"],
 				"recorded_window_calls":          m.Counters["recorded_window_calls"],
 				"distinct_nontrivial":            m.Distinct["nontrivial"],
 				"distinct_kill_outcomes":         m.Distinct["outcomes"],
 				"distinct_powerloss_classes":     m.Distinct["powerloss_classes"],
 				"distinct_file_sizes":            m.Distinct["file_sizes"],
 				"max_file_bytes":                 m.Maxes["max_file_bytes"],
-				"rule": "free-running race-detector runs of two goroutines saving the configuration concurrently (no data race in the writer, the stored file is one complete document); 3 writers (home.configuration.write, dhcpd onNotify->dbStore->writeDB, filtering tryRefreshFilters->updateIntl->finalizeUpdate) plus the loader's schema-upgrade rewrite, " +
+				"rule": "free-running race-detector runs of two goroutines saving the configuration concurrently (no data race in the writer, the stored file is one complete document); reset_leases (dhcpd resetLeases) as save 1 between two lease changes, every stored version of the lease database judged on its own (one whole JSON document listing exactly the leases held, never empty, and the real Create restarts on it); 3 writers (home.configuration.write, dhcpd onNotify->dbStore->writeDB, filtering tryRefreshFilters->updateIntl->finalizeUpdate) plus the loader's schema-upgrade rewrite, " +
 					"a refresh / a set_url whose download breaks half-way, a refresh whose new version holds a line longer than the parser accepts, set_url that succeeds, and for each of the 3 writers at 4096 B and 1 MiB a save 1 during which no file may grow beyond half / all but one byte of its size (RLIMIT_FSIZE; the save fails and must leave the previous version), x wanted sizes " +
 					"{0,1,4095,4096,4097,1 MiB}(+32 MiB thorough; the writer's minimum where smaller sizes cannot exist: configuration 3519 B, lease database 141 B = one lease, filter list 0 B only as the middle version and 2 B instead of 1 B) x destination {present, absent} before x temporary-file placement " +
 					"{next to destination, other directory}; per scenario two successive saves; (a) one real SIGKILL on entry to every file-system call touching the working directory between " +
